@@ -969,7 +969,8 @@ impl PrettyPrint {
     }
 
     fn decrease_indent(&mut self) {
-        self.indent_level -= 1
+        // A block that was opened with no items did not increase the level (see `start_block`).
+        self.indent_level = self.indent_level.saturating_sub(1)
     }
 }
 
